@@ -436,6 +436,24 @@ pub fn run(cfg: &RunCfg, rep: &mut Report) {
             }
         }
 
+        // multipath steps whose first alternatives coincide (the alternatives of a step need not differ)
+        {
+            let base = world.gen_xkey(&mut rng, false, false, false);
+            let a_ = rng.below(9);
+            let b_ = a_ + 1 + rng.below(5);
+            for tail in [format!("/<{};{};{}>/*", a_, a_, b_), format!("/<{};{};{}>", a_, b_, a_), format!("/<{};{}>/3/*", b_, a_), format!("/7/<{};{};{};{}>", a_, a_, a_, b_)] {
+                let ks = format!("{}{}", base.text, tail);
+                let pk = |s: &str| DescriptorPublicKey::from_str(s).map_err(|e| e.to_string());
+                if let Some((k, printed)) = roundtrip(rep, i, "DescriptorPublicKey-multipath-repeats", &ks, &pk) {
+                    let n_in = tail.matches(';').count() + 1;
+                    let n_out = guarded(std::panic::AssertUnwindSafe(|| k.clone().into_single_keys().len())).unwrap_or(0);
+                    if n_out != n_in || printed.matches(';').count() + 1 != n_in {
+                        rep.violation(i, "C10:multipath-alternatives-lost".into(), format!("{} has {} alternatives; parsed object has {}, printed as {}", ks, n_in, n_out, printed));
+                    }
+                }
+            }
+        }
+
         // D. policies
         let nm = AbstractPolNames;
         let pcfg = PolGenCfg { max_leaves: 8, n_keys: 6, n_hash: 2, concrete: true, constants: rng.coin(), repeat_atoms: true, timelocks: true, hashes: true, max_depth: 4, timelock_heavy: false };
